@@ -383,11 +383,34 @@ func (s *c6State) apply(op c6Op) (fail *c6Fail) {
 		s.setLayer(layer)
 		k, v, mask := c.Get(ctx)
 		ctx.Forward(k, v, mask).Compute(k, v, mask)
-		if f := s.checkVisible(layer, batch, k.(*fakeml.Tensor), v.(*fakeml.Tensor), mask.(*fakeml.Tensor)); f != nil {
+		if f := s.checkVisible(layer, batch, k.(*fakeml.Tensor), v.(*fakeml.Tensor), mask.(*fakeml.Tensor), nil); f != nil {
 			return f
 		}
 	}
+	// SetCausal (what gemma3 does for the tokens of an image): the listed batch indices may look ahead, every other
+	// token of the batch must still be shown exactly its causal history
 	ctx.Close()
+	for _, ex := range c6Excepts(n) {
+		// (a context of its own: the node budget of the forward pass's context belongs to the pass)
+		ctx2 := s.b.NewContext()
+		for layer := 0; layer < c6Layers; layer++ {
+			s.setLayer(layer)
+			s.cacheOf(layer).SetCausal(ctx2, CausalOptions{Except: ex})
+			k, v, mask := c.Get(ctx2)
+			ctx2.Forward(k, v, mask).Compute(k, v, mask)
+			if f := s.checkVisible(layer, batch, k.(*fakeml.Tensor), v.(*fakeml.Tensor), mask.(*fakeml.Tensor), ex); f != nil {
+				f.clause += "/set-causal"
+				f.msg += fmt.Sprintf(" (SetCausal Except=%v)", ex)
+				return f
+			}
+		}
+		ctx2.Close()
+	}
+	if n >= 2 {
+		for layer := 0; layer < c6Layers; layer++ {
+			s.cacheOf(layer).SetCausal(nil, CausalOptions{})
+		}
+	}
 	// everything stored (not only what this batch looks at) must still sit under the right metadata
 	return s.checkAll("after-forward")
 }
@@ -427,7 +450,24 @@ func (s *c6State) checkAll(when string) *c6Fail {
 	return nil
 }
 
-func (s *c6State) checkVisible(layer int, batch input.Batch, k, v, mask *fakeml.Tensor) *c6Fail {
+// c6Excepts: the SetCausal exemption lists tried on a batch of n tokens: the first token, the last one, and every
+// pair of indices that are not neighbours (a list that is no contiguous range)
+func c6Excepts(n int) [][]int {
+	if n < 2 {
+		return nil
+	}
+	out := [][]int{{0}, {n - 1}}
+	for i := 0; i < n; i++ {
+		for j := i + 2; j < n; j++ {
+			out = append(out, []int{i, j})
+		}
+	}
+	return out
+}
+
+// checkVisible; except: batch indices exempted from the causal rule by SetCausal (they may also be shown later
+// positions of their own sequence, which is not judged; everything else is)
+func (s *c6State) checkVisible(layer int, batch input.Batch, k, v, mask *fakeml.Tensor, except []int) *c6Fail {
 	hist := mask.Dim(0)
 	rows := mask.Dim(1)
 	n := len(batch.Positions)
@@ -496,6 +536,15 @@ func (s *c6State) checkVisible(layer int, batch input.Batch, k, v, mask *fakeml.
 				return int(a.pos - b.pos)
 			}
 			return a.tag - b.tag
+		}
+		if slices.Contains(except, i) {
+			later := map[ent]bool{}
+			for p, tag := range s.ref[seq] {
+				if int32(p) > pos {
+					later[ent{tag, int32(p)}] = true
+				}
+			}
+			vis = slices.DeleteFunc(vis, func(e ent) bool { return later[e] })
 		}
 		slices.SortFunc(vis, less)
 		slices.SortFunc(want, less)
